@@ -79,6 +79,25 @@ def stabilisation_test(t, pol, lid, vars_):
     return False
 
 
+def no_update_left(t, pol, fn, nz):
+    """`t` (with polarity) says `every variable of the graph yields an empty update`, as `vars.all(|v| update(v).is_empty())`: True; a
+    reason (str) when the quantification is over something else; None when `t` is no such test."""
+    while t[0] == "not":
+        t, pol = t[1], not pol
+    if not (t[0] == "hof" and t[1] == "all" and pol):
+        return None
+    src = terms.strip_iter_adapters(t[2])
+    b = nz(t[3])
+    if not (b[0] == "call" and isinstance(b[1], str) and b[1].endswith("is_empty") and len(b[2]) == 1 and terms.contains(b[2][0], lambda y: y[0] == "elem")):
+        return None
+    gname = roles(fn)[0]
+    alg = setalg.Alg()
+    want = alg.canon(("call", S.GRAPH + "variables", (gname,))) if gname else None
+    if want is None or alg.canon(src) != want:
+        return f"the sweep ranges over {short(src, 80)}, not over all variables of the graph"
+    return True
+
+
 def first_nonempty_update(t, fn, nz):
     """`t` is the test `vars(graph).map(update).find(|u| !u.is_empty())  is Some`: True; a reason (str) when it is such a search over
     something else than all variables of the graph / another predicate; None when `t` is no such test."""
@@ -388,6 +407,8 @@ def check_loop_protocol(rep, rule, prog, fn, engine):
                 for t, pol in q.conds(s.pc):
                     if not pol and first_nonempty_update(t, fn, nz) is True:
                         ok = True
+                    if no_update_left(t, pol, fn, nz) is True:
+                        ok = True           # the sweep lives in a helper that reports whether some variable still had an update
                     if stabilisation_test(t, pol, lid, lvars):
                         ok = True           # `loop { if cur == prev { return cur } .. }`: the classical stabilisation loop in its other form
                 if not ok:
